@@ -12,6 +12,12 @@ reply   : pk=<sorted list|-|err|panic> spec=<sorted list|?> src=<lean|gen> [wf=<
     wf   = the hypotheses of the format's C03 theorem (`WF`, `LayoutWF`, `LayoutOK`), decided
     same = Lean `render layout records` is byte-for-byte the file the harness wrote
     spec = `installed records` (src=lean)
+  reqtree (requirements files that include each other; harness/cmd/c03gen/gen_tree.go):
+    request : reqtree <hex top bytes> <expected|?> T:<hex top path>:<hex reachable paths|-> F:<hex path>:<hex content|->:<R token|-> …
+    pk      = `Requirements.extractAll` over the path → content map; entries hex(name)@hex(version)@hex(loc)/hex(loc)
+    wf      = every file `WFfile` ∧ the generator's list of reachable files passes `isReachCert` (theorem reachCert_iff)
+    same    = Lean `render` of every file is the file the harness wrote
+    spec    = `expectedTree files top reach` (theorem C03_requirements_tree_cert_partial)
   Without an R token (malformed stream, records the Lean types cannot express, decoded formats) spec echoes the
   generator's expected list (src=gen).
 -/
@@ -252,13 +258,21 @@ def reqFiller? (l : List Char) : Option Requirements.Filler :=
   match rest with
   | [] => some (.blank l)
   | '#' :: t => some (.comment lead t)
-  | '-' :: t => if lead.isEmpty then some (.option t) else none
+  | '-' :: t =>
+    if !lead.isEmpty then none else
+    match t with
+    | 'r' :: u =>
+      -- `-r<blanks><path>` with a path the Spec can express is an include line; any other text after "-r" stays an option line
+      let sp := u.takeWhile spTabChar
+      let tg := u.drop sp.length
+      if decide (Requirements.WFfiller (.incl sp tg)) then some (.incl sp tg) else some (.option t)
+    | _ => some (.option t)
   | _ => none
 
 def reqOp? (o : List Char) : Option Requirements.Op :=
   [Requirements.Op.eq3, .eq2, .ge, .le, .compat, .bare].find? (fun x => Requirements.opText x = o)
 
-def reqAns (t : RTok) : Option SpecAns :=
+def reqSpec? (t : RTok) : Option (Requirements.Layout × List Requirements.GRec) :=
   let dec (it : String) : Option Requirements.GRec :=
     if !it.startsWith "r" then none else
     match (dropS it 1).splitOn "," with
@@ -275,7 +289,70 @@ def reqAns (t : RTok) : Option SpecAns :=
     let rs := runs.map (·.2)
     let befores := runs.map (·.1)
     let ℓ : Requirements.Layout := { before := fun i => befores.getD i [], after := after, eols := ⟨t.crlf, t.final⟩ }
-    some ⟨decide (Requirements.WF rs ∧ Requirements.LayoutWF ℓ rs.length ∧ Requirements.LayoutOK ℓ rs), Requirements.render ℓ rs, Requirements.installed rs⟩
+    some (ℓ, rs)
+
+def reqAns (t : RTok) : Option SpecAns :=
+  (reqSpec? t).map fun (ℓ, rs) =>
+    ⟨decide (Requirements.WF rs ∧ Requirements.LayoutWF ℓ rs.length ∧ Requirements.LayoutOK ℓ rs), Requirements.render ℓ rs, Requirements.installed rs⟩
+
+/-! ### reqtree: requirements files that include each other -/
+
+def fmtLocPairs (ps : List (List Char × List Char × List Line)) : String :=
+  let xs := ps.map fun (n, v, ls) => hexOfChars n ++ "@" ++ hexOfChars v ++ "@" ++ joinWith "/" (ls.map hexOfChars)
+  if xs.isEmpty then "-" else joinWith "," (xs.toArray.qsort (· < ·)).toList
+
+structure TreeFile where
+  path : Line
+  bytes : List Char
+  rtok : Option RTok
+
+/-- `F:<hex path>:<hex content|->:<R token|->` -/
+def treeFile? (tok : String) : Option TreeFile :=
+  match tok.splitOn ":" with
+  | "F" :: p :: c :: rt =>
+    match hx? p, charsOfHex c with
+    | some p, some c =>
+      match rt with
+      | ["-"] => some ⟨p, c, none⟩
+      | ["R", body] => (parseR ("R:" ++ body)).map fun r => ⟨p, c, some r⟩
+      | _ => none
+    | _, _ => none
+  | _ => none
+
+/-- `T:<hex top path>:<hex reachable paths|->` -/
+def treeHead? (tok : String) : Option (Line × List Line) :=
+  match tok.splitOn ":" with
+  | ["T", p, reach] =>
+    match hx? p, (if reach = "-" then some [] else (reach.splitOn ",").mapM hx?) with
+    | some p, some r => some (p, r)
+    | _, _ => none
+  | _ => none
+
+def treeReply (hex expect : String) (toks : List String) : String :=
+  match toks with
+  | hd :: fts =>
+    match charsOfHex hex, treeHead? hd, fts.mapM treeFile? with
+    | some bs, some (top, reach), some tfs =>
+      let fs : Requirements.Files := tfs.map fun f => (f.path, f.bytes)
+      let pk := match Requirements.extractAll fs top bs with
+        | .ok ps => fmtLocPairs ps
+        | .err => "err"
+        | .panic => "panic"
+      let spec := sortList expect
+      -- the Spec side: every file rebuilt from its R token
+      let specs : Option (List Requirements.FileSpec) := tfs.mapM fun f =>
+        f.rtok.bind fun r => (reqSpec? r).map fun (ℓ, rs) => ({ path := f.path, ℓ := ℓ, rs := rs } : Requirements.FileSpec)
+      match specs, expect with
+      | some (t :: rest), e =>
+        if e = "?" || t.path ≠ top then s!"pk={pk} spec={spec} src=gen" else
+        -- the scan input is the first file; the file system holds all of them (the first one too)
+        let files := t :: rest
+        let wf := decide (∀ f ∈ t :: files, Requirements.WFfile f) && Requirements.isReachCert files t reach
+        let same := (files.zip tfs).all fun (f, tf) => Requirements.content f == tf.bytes
+        s!"pk={pk} spec={fmtLocPairs (Requirements.expectedTree files t reach)} src=lean wf={boolStr wf} same={boolStr (same && Requirements.content t == bs)}"
+      | _, _ => s!"pk={pk} spec={spec} src=gen"
+    | _, _, _ => "bad-op"
+  | [] => "bad-op"
 
 /-- sections: `s` header, then `p` (spec) / `a` (other indented line) / `b` (blank) items -/
 def gemSecs : List String → Nat → Option Gemfile.GSec → List (Nat × Gemfile.GSec) → Nat → Option (List (Nat × Gemfile.GSec))
@@ -391,6 +468,7 @@ def handle (line : String) : String :=
       | "dpkg" => some (byBytes Dpkg.parse r)
       | "requirements" => some (byBytes Requirements.parse r)
       | _ => none
+    if fmt = "reqtree" then treeReply hex expect rest else
     match rest with
     | [] => (lineFmt none).getD "bad-op"
     | [x] =>
